@@ -30,6 +30,7 @@ import (
 func TestMain(m *testing.M) {
 	vh.Rule("exhaustive: all 779 (precision 1..38, scale 0..precision) pairs x both signs x boundary magnitudes 0, 1, 10^k, 10^k-1, 10^k+1 (thorough adds d*10^k, repdigits, 10^k-10^j) through String+round trip; the same pairs x magnitudes x text variants (canonical, no point, leading zeros, fraction zero-padded to the scale, and the tolerated shapes '+', surrounding spaces, leading point, trailing point) through SetString; per pair the fraction-beyond-scale, too-many-digits boundary texts; every string of length <=5 over \"019.-+ e\" (thorough <=6 over 9 symbols) at 6 pairs; every (precision, scale) in -5..45 plus int extremes through NewDecimal/NewDecimalString. rapid: random (precision, scale), random digit strings of length 0..precision (styles: uniform digits, all nines, power of ten, zero tail/head), random text variants, unrepresentable numerals (non-zero digits beyond the scale, more significant digits than the precision), malformed text (several points, inner signs, empty, letters, exponent, hex, separators, non-ASCII digits, control bytes). Non-trivial: the expected unscaled integer has |u| >= 10, or scale > 0 and the fraction is non-zero; for input that must be rejected: a well-formed numeral with >= 2 significant digits or a non-zero fraction digit, or malformed text with >= 2 non-space characters. Distinct by (precision, scale, unscaled) resp. (precision, scale, text)")
 	vh.Assume("math/big Int/Rat arithmetic and Rat.SetString; regexp; Decimal.SetBytes+Negate load an unscaled integer and Decimal.Int/IsNegative read it back (cross-checked against each other in every case); the oracle's numeral grammar: must-accept = -?D+(.D+)? with <= scale fraction digits and |value*10^scale| < 10^precision; '+', surrounding white space, '.5', '5.' and zero digits beyond the scale are only tolerated (if accepted the value must be exact, an error is fine too); precision 0 is not judged (property speaks of 1..38, NewDecimal documents < 0 as too low)")
+	vh.Rule("also: batches of 2..8 format/parse cases run in goroutines at the same time (separate race-detector run)")
 	vh.Main(m, "C16")
 }
 
@@ -369,7 +370,11 @@ func genNonZeroLead(rt *rapid.T, n int, what string) string {
 }
 
 func TestStringRandom(t *testing.T) {
-	gen := func(rt *rapid.T) fmtCase {
+	vh.Check(t, "TestStringRandom", vh.N(120000, 1350000), genFmtCase, runFormat)
+}
+
+func genFmtCase(rt *rapid.T) fmtCase {
+	{
 		p, s := genPS(rt)
 		n := rapid.IntRange(0, p).Draw(rt, "ndigits")
 		d := genDigits(rt, n, "digits")
@@ -383,7 +388,6 @@ func TestStringRandom(t *testing.T) {
 		}
 		return c
 	}
-	vh.Check(t, "TestStringRandom", vh.N(120000, 1350000), gen, runFormat)
 }
 
 // ---------------------------------------------------------------------------------
@@ -739,7 +743,11 @@ func genValidText(rt *rapid.T, p, s int) string {
 }
 
 func TestParseRandom(t *testing.T) {
-	gen := func(rt *rapid.T) parseCase {
+	vh.Check(t, "TestParseRandom", vh.N(120000, 1350000), genParseCase, runParse)
+}
+
+func genParseCase(rt *rapid.T) parseCase {
+	{
 		p, s := genPS(rt)
 		c := parseCase{P: p, S: s, Text: genValidText(rt, p, s), Prior: rapid.SampledFrom(priors).Draw(rt, "prior")}
 		a := analyse(c.Text)
@@ -751,7 +759,6 @@ func TestParseRandom(t *testing.T) {
 		}
 		return c
 	}
-	vh.Check(t, "TestParseRandom", vh.N(120000, 1350000), gen, runParse)
 }
 
 // --- fraction longer than the scale
@@ -1309,4 +1316,50 @@ func maxInt(a, b int) int {
 		return a
 	}
 	return b
+}
+
+// ---- several goroutines converting at the same time (each with decimals of its own):
+// nothing the conversions share (caches, scratch values) may show in a result
+
+type mixedCase struct {
+	F *fmtCase   `json:"format,omitempty"`
+	P *parseCase `json:"parse,omitempty"`
+}
+
+func TestConcurrentConversions(t *testing.T) {
+	gen := func(rt *rapid.T) []mixedCase {
+		n := rapid.IntRange(2, 8).Draw(rt, "goroutines")
+		var cs []mixedCase
+		for i := 0; i < n; i++ {
+			if rapid.Bool().Draw(rt, "format") {
+				c := genFmtCase(rt)
+				cs = append(cs, mixedCase{F: &c})
+			} else {
+				c := genParseCase(rt)
+				cs = append(cs, mixedCase{P: &c})
+			}
+		}
+		return cs
+	}
+	run := func(cs []mixedCase) *vh.Failure {
+		f := vh.Together(cs, func(c mixedCase) *vh.Failure {
+			for k := 0; k < 20; k++ {
+				var f *vh.Failure
+				if c.F != nil {
+					f = runFormat(*c.F)
+				} else {
+					f = runParse(*c.P)
+				}
+				if f != nil {
+					return f
+				}
+			}
+			return nil
+		})
+		if f == nil {
+			vh.Label("concurrent-conversions")
+		}
+		return f
+	}
+	vh.Check(t, "TestConcurrentConversions", vh.N(1500, 30000), gen, run)
 }
